@@ -26,16 +26,52 @@ type Result struct {
 	// UnsureValid: the documentation does not determine whether the body is
 	// valid (error presence is not compared).
 	UnsureValid bool
+	// Regions: notable conditions met while decoding (construct + condition on
+	// the reference trace), in order of first occurrence; used by C08 to name
+	// failure classes. See the Region* constants.
+	Regions []string
 }
+
+// Regions recorded on the reference trace.
+const (
+	// a BlockMapSpec with two or more label names sees no (well-labelled) block
+	RegionMapSeveralLabelsNoBlocks = "blockmap-several-labels-no-blocks"
+	// a BlockList/Set/MapSpec whose nested implied type has optional attributes sees no block
+	RegionListNoBlocksOptional = "blocklist-no-blocks-optional-attrs"
+	RegionSetNoBlocksOptional  = "blockset-no-blocks-optional-attrs"
+	RegionMapNoBlocksOptional  = "blockmap-no-blocks-optional-attrs"
+	// a BlockAttrsSpec whose element type leaves the type open sees attributes of different types
+	RegionAttrsMixedTypes = "blockattrs-dynamic-element-mixed-types"
+	// the blocks of a BlockList/SetSpec decode to types that cannot be unified
+	RegionListUnunifiable = "blocklist-ununifiable-block-types"
+	RegionSetUnunifiable  = "blockset-ununifiable-block-types"
+	// ... to types that go-cty "unifies" without making them equal
+	RegionListUnifyNotSingle = "blocklist-unified-types-still-differ"
+	RegionSetUnifyNotSingle  = "blockset-unified-types-still-differ"
+	// a DefaultSpec covers a required AttrSpec whose attribute is present
+	RegionDefaultRequiredAttr = "default-over-present-required-attr"
+)
 
 type decoder struct {
 	env         map[string]cty.Value
 	invalid     []string
 	unsure      bool
 	unsureValid bool
+	regions     []string
 }
 
 func (d *decoder) bad(reason string) { d.invalid = append(d.invalid, reason) }
+
+func (d *decoder) region(name string) {
+	for _, r := range d.regions {
+		if r == name {
+			return
+		}
+	}
+	d.regions = append(d.regions, name)
+}
+
+func hasOptional(t cty.Type) bool { return !t.Equals(t.WithoutOptionalAttributesDeep()) }
 
 // Decode decodes body with spec. partial = PartialDecode semantics (items of
 // the top-level body not mentioned by the spec are allowed).
@@ -45,11 +81,11 @@ func Decode(s *sg.Spec, body *sg.Body, env map[string]cty.Value, partial bool) (
 		if r := recover(); r != nil {
 			// the reference model could not build a value (go-cty constructor
 			// panic): the case is outside what the model describes
-			res = Result{Val: cty.DynamicVal, Invalid: d.invalid, Unsure: true, UnsureValid: true}
+			res = Result{Val: cty.DynamicVal, Invalid: d.invalid, Unsure: true, UnsureValid: true, Regions: d.regions}
 		}
 	}()
 	v := d.body(s, body, nil, partial)
-	return Result{Val: v, Invalid: d.invalid, Unsure: d.unsure, UnsureValid: d.unsureValid}
+	return Result{Val: v, Invalid: d.invalid, Unsure: d.unsure, UnsureValid: d.unsureValid, Regions: d.regions}
 }
 
 type content struct {
@@ -196,6 +232,13 @@ func (d *decoder) spec(s *sg.Spec, c content, labels []string) cty.Value {
 			return cty.TupleVal(elems)
 		}
 		if len(elems) == 0 {
+			if hasOptional(nested.Implied()) {
+				if s.K == sg.KList {
+					d.region(RegionListNoBlocksOptional)
+				} else {
+					d.region(RegionSetNoBlocksOptional)
+				}
+			}
 			if s.K == sg.KList {
 				return cty.ListValEmpty(noOpt(nested.Implied()))
 			}
@@ -207,9 +250,14 @@ func (d *decoder) spec(s *sg.Spec, c content, labels []string) cty.Value {
 		for i, e := range elems {
 			tys[i] = e.Type()
 		}
+		ununifiable, notSingle := RegionListUnunifiable, RegionListUnifyNotSingle
+		if s.K == sg.KSet {
+			ununifiable, notSingle = RegionSetUnunifiable, RegionSetUnifyNotSingle
+		}
 		ety, convs := convert.UnifyUnsafe(tys)
 		if ety == cty.NilType {
 			d.bad("ununifiable-block-types")
+			d.region(ununifiable)
 			return cty.UnknownVal(noOpt(s.Implied()))
 		}
 		for i := range elems {
@@ -217,9 +265,19 @@ func (d *decoder) spec(s *sg.Spec, c content, labels []string) cty.Value {
 				nv, err := convs[i](elems[i])
 				if err != nil {
 					d.bad("ununifiable-block-types")
+					d.region(ununifiable)
 					return cty.UnknownVal(noOpt(s.Implied()))
 				}
 				elems[i] = nv
+			}
+		}
+		for _, e := range elems {
+			if !e.Type().Equals(elems[0].Type()) {
+				// go-cty named a unified type with dynamic parts and the conversions
+				// leave different types: no list/set of these values exists
+				d.bad("ununifiable-block-types")
+				d.region(notSingle)
+				return cty.UnknownVal(noOpt(s.Implied()))
 			}
 		}
 		if s.K == sg.KList {
@@ -235,6 +293,14 @@ func (d *decoder) spec(s *sg.Spec, c content, labels []string) cty.Value {
 			val  cty.Value
 		}
 		root := &node{kids: map[string]*node{}}
+		if s.K == sg.KMap && len(c.blocksOf(s.Name)) == 0 {
+			if n > 1 {
+				d.region(RegionMapSeveralLabelsNoBlocks)
+			}
+			if hasOptional(nested.Implied()) {
+				d.region(RegionMapNoBlocksOptional)
+			}
+		}
 		for _, bl := range c.blocksOf(s.Name) {
 			v := d.body(nested, bl.Body, bl.Labels[n:], false)
 			cur := root
@@ -320,6 +386,7 @@ func (d *decoder) spec(s *sg.Spec, c content, labels []string) cty.Value {
 				// "a cty.Map of the given element type" does not say what results
 				d.unsure = true
 				d.unsureValid = true
+				d.region(RegionAttrsMixedTypes)
 			}
 		}
 		if d.unsure {
@@ -336,6 +403,11 @@ func (d *decoder) spec(s *sg.Spec, c content, labels []string) cty.Value {
 		return cty.StringVal(labels[s.Index])
 
 	case sg.KDefault:
+		s.WalkSameBody(func(x *sg.Spec) {
+			if _, present := c.attrs[x.Name]; x.K == sg.KAttr && x.Req && present {
+				d.region(RegionDefaultRequiredAttr)
+			}
+		})
 		v := d.spec(s.Kids[0], c, labels)
 		// (the schema requirements of the default always apply: they are part
 		// of the view of the body; its value is only needed for a null primary)
